@@ -141,6 +141,9 @@ func Groups(thorough bool) []Group {
 				out = append(out, Simple(typ, 1700000000+int64(seq%50), next(), ses, "4242", res))
 			}
 		}
+		// numeric limits: the last serial before the kernel's counter wraps, a timestamp beyond 2038, the largest pid
+		out = append(out, Simple("USER_START", 4102444800, 4294967295, ses, "4194304", "success"))
+		out = append(out, Simple("USER_END", 4102444800, 0, ses, "4194304", "failed"))
 		for _, lead := range []string{"AVC", "CONFIG_CHANGE"} {
 			for _, succ := range []string{"yes", "no"} {
 				out = append(out, Led(lead, 1700000000+int64(seq%50), next(), ses, "4243", succ))
